@@ -6,6 +6,10 @@ TITLE = "one verdict per announced client, then silence"
 OWN = {"P01_once"}
 
 
+TRUST = {"modules": ("iauth_xquery", "iauth_class"),
+         "rules": [{"name": "rt", "trust_username": "yes", "class": "ct"}]}
+
+
 def RT(nth):
     """every nth behaviour is replayed a second time with a REAL 2 s request timeout: after all clients of a daemon process
     have been withdrawn the driver waits past every deadline and takes an empty step, which must print nothing (a timer of a
@@ -31,9 +35,13 @@ def RT(nth):
 def plans(ctx):
     if ctx.tier == "quick":
         # re-announcement of live ids, D/T after a verdict, replies (stale tags) after a verdict, junk
-        return [R.Plan("qr", "S_q1", emit_mod=100, max_inst=2, max_pw=1, stray=1, junk=True, also=RT(25))]
+        return [R.Plan("qr", "S_q1", emit_mod=70, max_inst=2, max_pw=1, stray=1, also=RT(25)),
+                # iauth_class with a trust_username rule and ident answers that start with '~': the pre-registration hook
+                # prints a U line and may re-enter the acceptance gate
+                R.Plan("trust", "S_t1d", emit_mod=6, max_inst=1, max_pw=1, rich_sel="RichTilde", opts=TRUST)]
     return [R.Plan("qr", "S_q1", emit_mod=50, max_inst=2, max_pw=1, stray=2, junk=True, also=RT(40)),
             R.Plan("qr3", "S_t1d", emit_mod=20, max_inst=3, max_pw=1, stray=1),
+            R.Plan("trust", "S_q1", emit_mod=10, max_inst=2, max_pw=1, stray=1, rich_sel="RichTilde", opts=TRUST),
             R.Plan("t1c", "S_t1c", emit_mod=12, max_inst=1, max_pw=2),
             R.Plan("two", "S_t1d", emit_mod=40, ids="Ids2", max_inst=1, max_pw=0, pw_on=False),
             R.Plan("sim", "S_t1a", simulate="num=60", depth=60, workers=8, rich=True, ids="Ids2", max_inst=8,
